@@ -99,8 +99,9 @@ def fixture_selftest(tool):
 
 
 def run(ctx):
-    bindir = runner.cargo_build(["gql_tools"])
-    tool = os.path.join(bindir, "gql_tools")
+    tool = os.environ.get("VERIF_GQL_TOOL")     # validation aid: a gql_tools built from a mutated copy of /repo
+    if not tool:
+        tool = os.path.join(runner.cargo_build(["gql_tools"]), "gql_tools")
     gc.TOOL = tool
     n = ctx.pick(10_000, 1_000_000)
     fstats, fixture_problems = fixture_selftest(tool)
